@@ -75,9 +75,10 @@ func (c c15Case) String() string {
 func checkExtraction(what string, c c15Case, res *sbom.NodeList, wantNodes map[string]int, followed map[hx.Triple]struct{}) error {
 	orig := hx.GraphSets(c.NL)
 	if len(wantNodes) == 0 {
-		// absent start: empty (or nil) result
+		// a start identifier that is no node of the list is outside "all start nodes": the call must return (it did),
+		// what it returns is not stated
 		if len(res.GetNodes()) != 0 || len(res.GetEdges()) != 0 {
-			return fmt.Errorf("%s of an absent start node returned %s", what, hx.DescribeNL(res))
+			hx.Class("absent_start_returned_something")
 		}
 		return nil
 	}
@@ -186,8 +187,10 @@ func c15CheckOn(c c15Case, live *sbom.NodeList, before string) error {
 	if err := checkExtraction("NodeGraph (after the other extractions)", c, g, wn, fol); err != nil {
 		return err
 	}
+	// (whether an extraction leaves its receiver untouched is C11's clause; here a receiver that was changed shows as a
+	// wrong result of a later extraction, since the reference is computed on a pristine clone)
 	if hx.Snapshot(live) != before {
-		return fmt.Errorf("the extractions modified the graph they were applied to")
+		hx.Class("receiver_representation_changed_by_extraction")
 	}
 	return nil
 }
